@@ -1,15 +1,15 @@
 /- C07 — the layout / import side of "every generated module imports": class order inside a
 module, import sufficiency, circular-reference detection, uniqueness of the final qnames.
 Property theorems only; helper lemmas in Proofs/ToposortSound.lean, Proofs/ResolverSound.lean,
-Proofs/CircularSound.lean. The models of `toposort_flatten` and `DependenciesResolver` are C12's
-(`Codegen/Toposort.lean`, `Codegen/Resolver.lean`); `Codegen/Circular.lean` is new. -/
+Proofs/CircularRefsSound.lean. The models of `toposort_flatten` and `DependenciesResolver` are C12's
+(`Codegen/Toposort.lean`, `Codegen/Resolver.lean`); `Codegen/CircularRefs.lean` (namespace `Xs.Codegen.Refs`) is this property's model of the handler. -/
 import XsdataModel.Proofs.ResolverSound
-import XsdataModel.Proofs.CircularSound
+import XsdataModel.Proofs.CircularRefsSound
 import XsdataModel.Proofs.RenameClasses
 import XsdataModel.Props.C07
 
 namespace Props.C07Layout
-open Py Xs.Codegen
+open Py Xs.Codegen Xs.Codegen.Refs
 
 /-! ## `toposort_flatten`: class order inside a module -/
 
